@@ -130,6 +130,7 @@ type op =
 | Throw of exc
 | Close
 | Del
+| ThrowNC of exc
 
 type result =
 | RYield of val0
@@ -144,12 +145,15 @@ val is_stopiter : exc -> bool
 
 val is_genexit : exc -> bool
 
-val pep479 : exc -> exc
+val eStopAsync : exc
+
+val pep479 : bool -> exc -> exc
 
 val sub_send : subiter -> val0 -> sres * subiter
 
 type fixes = { fx_first_send : bool; fx_throw_si_fresh : bool;
-               fx_close_ret : bool; fx_si_at_yf : bool }
+               fx_close_ret : bool; fx_si_at_yf : bool; fx_ag_fresh_del : 
+               bool }
 
 val fx_none : fixes
 
@@ -186,23 +190,23 @@ val c_set_running : 'a1 cstate -> bool -> 'a1 cstate
 
 val c_set_yf : 'a1 cstate -> subiter option -> 'a1 cstate
 
-val cy_exit_error : 'a1 cstate -> exc -> gres * 'a1 cstate
+val cy_exit_error : bool -> 'a1 cstate -> exc -> gres * 'a1 cstate
 
 val cy_run_user :
-  ('a1 -> input -> 'a1 outcome) -> 'a1 cstate -> 'a1 -> input -> (gres * 'a1
-  cstate) * 'a1 log
+  ('a1 -> input -> 'a1 outcome) -> bool -> 'a1 cstate -> 'a1 -> input ->
+  (gres * 'a1 cstate) * 'a1 log
 
 val cy_body :
-  'a1 -> ('a1 -> input -> 'a1 outcome) -> 'a1 cstate -> sendarg ->
+  'a1 -> ('a1 -> input -> 'a1 outcome) -> bool -> 'a1 cstate -> sendarg ->
   (gres * 'a1 cstate) * 'a1 log
 
 val cy_send_ex :
-  'a1 -> ('a1 -> input -> 'a1 outcome) -> bool -> 'a1 cstate -> sendarg ->
-  bool -> (gres * 'a1 cstate) * 'a1 log
+  'a1 -> ('a1 -> input -> 'a1 outcome) -> bool -> bool -> 'a1 cstate ->
+  sendarg -> bool -> (gres * 'a1 cstate) * 'a1 log
 
 val cy_send_ex_guard :
-  'a1 -> ('a1 -> input -> 'a1 outcome) -> bool -> fixes -> 'a1 cstate ->
-  sendarg -> bool -> (gres * 'a1 cstate) * 'a1 log
+  'a1 -> ('a1 -> input -> 'a1 outcome) -> bool -> bool -> fixes -> 'a1 cstate
+  -> sendarg -> bool -> (gres * 'a1 cstate) * 'a1 log
 
 val arg_of_sub_error : exc -> sendarg
 
@@ -211,64 +215,64 @@ val arg_at_yf : fixes -> exc -> sendarg
 val unrun : ((gres * 'a1 cstate) * 'a1 log) -> (gres * 'a1 cstate) * 'a1 log
 
 val cy_amsend :
-  'a1 -> ('a1 -> input -> 'a1 outcome) -> bool -> fixes -> 'a1 cstate -> val0
-  -> (gres * 'a1 cstate) * 'a1 log
+  'a1 -> ('a1 -> input -> 'a1 outcome) -> bool -> bool -> fixes -> 'a1 cstate
+  -> val0 -> (gres * 'a1 cstate) * 'a1 log
 
-val result_of_gres : gres -> result
+val result_of_gres : bool -> gres -> result
 
 val cy_close_iter : subiter -> exc option * subiter
 
 val cy_close :
-  'a1 -> ('a1 -> input -> 'a1 outcome) -> bool -> fixes -> 'a1 cstate ->
-  (gres * 'a1 cstate) * 'a1 log
-
-val cy_throw :
-  'a1 -> ('a1 -> input -> 'a1 outcome) -> bool -> fixes -> 'a1 cstate -> exc
+  'a1 -> ('a1 -> input -> 'a1 outcome) -> bool -> bool -> fixes -> 'a1 cstate
   -> (gres * 'a1 cstate) * 'a1 log
 
-val cy_del :
-  'a1 -> ('a1 -> input -> 'a1 outcome) -> bool -> fixes -> 'a1 cstate ->
-  (result * 'a1 cstate) * 'a1 log
+val cy_throw :
+  'a1 -> ('a1 -> input -> 'a1 outcome) -> bool -> bool -> fixes -> bool ->
+  'a1 cstate -> exc -> (gres * 'a1 cstate) * 'a1 log
 
-val cy_op :
-  'a1 -> ('a1 -> input -> 'a1 outcome) -> bool -> fixes -> 'a1 cstate -> op
+val cy_del :
+  'a1 -> ('a1 -> input -> 'a1 outcome) -> bool -> bool -> fixes -> 'a1 cstate
   -> (result * 'a1 cstate) * 'a1 log
 
+val cy_op :
+  'a1 -> ('a1 -> input -> 'a1 outcome) -> bool -> bool -> fixes -> 'a1 cstate
+  -> op -> (result * 'a1 cstate) * 'a1 log
+
 val py_send_ex :
-  'a1 -> ('a1 -> input -> 'a1 outcome) -> bool -> 'a1 pstate -> sendarg ->
-  bool -> (gres * 'a1 pstate) * 'a1 log
+  'a1 -> ('a1 -> input -> 'a1 outcome) -> bool -> bool -> 'a1 pstate ->
+  sendarg -> bool -> (gres * 'a1 pstate) * 'a1 log
 
 val py_arg_at_yf : exc -> sendarg
 
 val py_send :
-  'a1 -> ('a1 -> input -> 'a1 outcome) -> bool -> 'a1 pstate -> val0 ->
-  (gres * 'a1 pstate) * 'a1 log
+  'a1 -> ('a1 -> input -> 'a1 outcome) -> bool -> bool -> 'a1 pstate -> val0
+  -> (gres * 'a1 pstate) * 'a1 log
 
 val py_close_iter : subiter -> exc option * subiter
 
 val py_throw :
-  'a1 -> ('a1 -> input -> 'a1 outcome) -> bool -> 'a1 pstate -> exc ->
-  (gres * 'a1 pstate) * 'a1 log
+  'a1 -> ('a1 -> input -> 'a1 outcome) -> bool -> bool -> bool -> 'a1 pstate
+  -> exc -> (gres * 'a1 pstate) * 'a1 log
 
 val py_close :
-  'a1 -> ('a1 -> input -> 'a1 outcome) -> bool -> 'a1 pstate -> (gres * 'a1
-  pstate) * 'a1 log
+  'a1 -> ('a1 -> input -> 'a1 outcome) -> bool -> bool -> 'a1 pstate ->
+  (gres * 'a1 pstate) * 'a1 log
 
 val py_del :
-  'a1 -> ('a1 -> input -> 'a1 outcome) -> bool -> 'a1 pstate -> (result * 'a1
-  pstate) * 'a1 log
+  'a1 -> ('a1 -> input -> 'a1 outcome) -> bool -> bool -> 'a1 pstate ->
+  (result * 'a1 pstate) * 'a1 log
 
 val py_op :
-  'a1 -> ('a1 -> input -> 'a1 outcome) -> bool -> 'a1 pstate -> op ->
+  'a1 -> ('a1 -> input -> 'a1 outcome) -> bool -> bool -> 'a1 pstate -> op ->
   (result * 'a1 pstate) * 'a1 log
 
 val run_cy :
-  'a1 -> ('a1 -> input -> 'a1 outcome) -> bool -> fixes -> 'a1 cstate -> op
-  list -> (result * 'a1 log) list * 'a1 cstate option
+  'a1 -> ('a1 -> input -> 'a1 outcome) -> bool -> bool -> fixes -> 'a1 cstate
+  -> op list -> (result * 'a1 log) list * 'a1 cstate option
 
 val run_py :
-  'a1 -> ('a1 -> input -> 'a1 outcome) -> bool -> 'a1 pstate -> op list ->
-  (result * 'a1 log) list * 'a1 pstate option
+  'a1 -> ('a1 -> input -> 'a1 outcome) -> bool -> bool -> 'a1 pstate -> op
+  list -> (result * 'a1 log) list * 'a1 pstate option
 
 val c_init : 'a1 cstate
 
